@@ -28,6 +28,65 @@ type Node struct {
 	Hdr      consensus.State
 	HasState bool
 	ValidChain bool // all blocks from genesis to this one are "ok"
+	// Alias is the node whose block ID this node shares (an ID twin: same header, another body);
+	// a node's own ID otherwise.
+	Alias int
+}
+
+// IDMap maps block IDs to the node that represents the ID in the specifications (for an ID twin,
+// the node it is an alias of).
+func (t *Tree) IDMap() map[types.BlockID]int {
+	m := map[types.BlockID]int{}
+	for _, nd := range t.Nodes {
+		m[nd.Block.ID()] = nd.Alias
+	}
+	return m
+}
+
+// SameBody reports whether b is byte for byte the block of the node.
+func (n *Node) SameBody(b types.Block) bool {
+	return bytes.Equal(BlockBytes(n.Block), BlockBytes(b))
+}
+
+// BlockBytes is the canonical encoding of a block (v2 encoding; covers every field of the body).
+func BlockBytes(b types.Block) []byte {
+	var buf bytes.Buffer
+	e := types.NewEncoder(&buf)
+	types.V2Block(b).EncodeTo(e)
+	e.Flush()
+	return buf.Bytes()
+}
+
+// AddTwin appends an ID twin of node canon: the same header (hence the same block ID, parent,
+// height and weight) with another body -- the miner payout address is changed, which a v2 header
+// does not cover but the commitment does, so the twin fails ValidateBlock ("badbody") while
+// passing every header check.  Returns nil if canon cannot have such a twin (v1 block, not "ok",
+// parent chain not valid).
+func (t *Tree) AddTwin(canon int) *Node {
+	c := t.Node(canon)
+	if canon == 1 || c.Block.V2 == nil || c.Cls != "ok" || c.Alias != c.ID {
+		return nil
+	}
+	p := t.Node(c.Parent)
+	if p.L == nil {
+		return nil
+	}
+	blk := cloneBlock(c.Block)
+	blk.MinerPayouts[0].Address = t.W.Other
+	if blk.MinerPayouts[0].Address == c.Block.MinerPayouts[0].Address {
+		blk.MinerPayouts[0].Address[0] ^= 1
+	}
+	if blk.ID() != c.Block.ID() {
+		panic("mat: twin does not share the block ID")
+	}
+	n := &Node{ID: len(t.Nodes) + 1, Parent: c.Parent, Height: c.Height, Block: blk, Corrupt: "twin-payout-addr", Alias: canon,
+		Hdr: c.Hdr, HasState: c.HasState}
+	n.Cls = classify(p.L, p.State(), blk)
+	if n.Cls != "badbody" {
+		panic("mat: a body twin must fail ValidateBlock only, got " + n.Cls)
+	}
+	t.Nodes = append(t.Nodes, n)
+	return n
 }
 
 // A Tree is a fork tree of real blocks.
@@ -59,7 +118,7 @@ func (n *Node) State() consensus.State {
 
 // Corruptions is the catalogue of single-field block corruptions.
 var Corruptions = []string{"nonce", "ts-past", "ts-future", "payout-value", "payout-count", "v2-height", "v2-commitment",
-	"tx-double-spend", "tx-missing-output", "tx-bad-signature", "tx-overspend", "v2-bad-proof", "v2-bad-leafindex"}
+	"tx-double-spend", "tx-missing-output", "tx-bad-signature", "tx-overspend", "v2-bad-proof", "v2-bad-leafindex", "v2-empty-commitment"}
 
 func remine(w *World, parent consensus.State, b *types.Block, fixCommitment bool) {
 	if b.V2 != nil && fixCommitment {
@@ -137,6 +196,18 @@ func Corrupt(w *World, parent consensus.State, b types.Block, kind string, rng *
 		}
 		c.V2.Commitment[3] ^= 0x40
 		remine(w, parent, &c, false)
+		return c, true
+	case "v2-empty-commitment":
+		// a block WITHOUT any transaction whose commitment is wrong: nothing but the commitment
+		// check of ValidateBlock can reject it
+		if c.V2 == nil {
+			return c, false
+		}
+		c.Transactions = nil
+		c.V2.Transactions = nil
+		c.V2.Commitment = parent.Commitment(c.MinerPayouts[0].Address, nil, nil)
+		c.V2.Commitment[rng.Intn(32)] ^= byte(1 + rng.Intn(255))
+		Mine(parent, &c)
 		return c, true
 	case "tx-double-spend":
 		for i := range c.Transactions {
@@ -227,7 +298,7 @@ func Corrupt(w *World, parent consensus.State, b types.Block, kind string, rng *
 // NewTree starts a tree with the genesis block.
 func NewTree(w *World) *Tree {
 	l := NewLedger(w.N, w.Genesis)
-	g := &Node{ID: 1, Parent: 0, Height: 0, Block: w.Genesis, Cls: "ok", L: l, Hdr: l.CS, HasState: true, ValidChain: true}
+	g := &Node{ID: 1, Parent: 0, Height: 0, Block: w.Genesis, Cls: "ok", L: l, Hdr: l.CS, HasState: true, ValidChain: true, Alias: 1}
 	return &Tree{W: w, Nodes: []*Node{g}}
 }
 
@@ -254,6 +325,7 @@ func classify(parentL *Ledger, parentState consensus.State, b types.Block) strin
 func (t *Tree) Add(parent int, rng *rand.Rand, nOps int, script []string, tsOffset int, corrupt string) *Node {
 	p := t.Node(parent)
 	n := &Node{ID: len(t.Nodes) + 1, Parent: parent, Height: p.Height + 1}
+	n.Alias = n.ID
 	var blk types.Block
 	if p.L != nil {
 		bld := NewBuilder(t.W, p.L, rng)
@@ -285,6 +357,13 @@ func (t *Tree) Add(parent int, rng *rand.Rand, nOps int, script []string, tsOffs
 		}
 	}
 	n.Block = blk
+	for _, o := range t.Nodes {
+		if o.Block.ID() == blk.ID() {
+			// two node numbers for one block ID would make every ID->node mapping ambiguous:
+			// build the node again at another timestamp
+			return t.Add(parent, rng, nOps, script, tsOffset+1+rng.Intn(3), corrupt)
+		}
+	}
 	n.Cls = classify(p.L, pstate, blk)
 	{
 		// header-derived state: what AddBlocks records first for a storable block; also computed
@@ -333,6 +412,7 @@ type GenSpec struct {
 	BadBlocks  int // at most this many corrupted blocks
 	OpsPerBlk  int
 	Warmup     int // linear valid prefix (lets outputs mature and regimes be reached)
+	Twins      int // ID twins (same header, another body) added for random valid v2 blocks
 }
 
 // RandomTree grows a tree: mostly extends the most recent tip of some branch, sometimes forks.
@@ -382,4 +462,25 @@ func GrowRandom(t *Tree, rng *rand.Rand, g GenSpec, tips []int) {
 			tips = append(tips, n.ID)
 		}
 	}
+	for k := 0; k < g.Twins; k++ {
+		var cand []int
+		for _, nd := range t.Nodes {
+			if nd.ID > 1 && nd.Block.V2 != nil && nd.Cls == "ok" && nd.Alias == nd.ID && t.Node(nd.Parent).L != nil && !t.hasTwin(nd.ID) {
+				cand = append(cand, nd.ID)
+			}
+		}
+		if len(cand) == 0 {
+			break
+		}
+		t.AddTwin(cand[rng.Intn(len(cand))])
+	}
+}
+
+func (t *Tree) hasTwin(id int) bool {
+	for _, nd := range t.Nodes {
+		if nd.Alias == id && nd.ID != id {
+			return true
+		}
+	}
+	return false
 }
